@@ -63,10 +63,10 @@ def run(ctx, rep):
         for shape in ("O0", "ship"):
             T, _ = run_one(ctx, rep, cfg, shape)
             if first and shape == "O0":
-                rep.floor("C08.R1", "conditional branches examined (source-shaped IR, shipped config)", T.counts["R1"], 340)
-                rep.floor("C08.R2", "memory accesses examined", T.counts["R2"], 3000)
+                rep.floor("C08.R1", "conditional branches examined (source-shaped IR, shipped config)", T.counts["R1"], 200)
+                rep.floor("C08.R2", "memory accesses examined", T.counts["R2"], 2000)
                 rep.floor("C08.R5", "memcpy/memset/calloc lengths examined", T.counts["R5"], 30)
-                rep.floor("C08.R4", "indirect calls examined", T.counts["R4"], 25)
+                rep.floor("C08.R4", "indirect calls examined", T.counts["R4"], 20)
                 rep.analysed["sink_counts_O0"] = dict(T.counts)
                 rep.analysed["treated_as_public"] = dict(T.public_loads)
                 rep.analysed["secret_values"] = sum(len(v) for v in T.H.values())
